@@ -42,6 +42,11 @@ def check(ctx):
     cells = [("mono_P", (1, 1, 1)), ("tri2_P1", (2, 1, 1)), ("hcp", (1, 1, 1)), ("bcc_conv", (1, 1, 1)), ("tri1", (2, 2, 1))]
     if not ctx.quick:
         cells += [("wurtzite", (1, 1, 1)), ("ortho_C", (1, 1, 2)), ("si_prim", (2, 1, 1)), ("rhombo2", (1, 1, 1)), ("mono_C", (1, 1, 1)), ("nacl_prim", (2, 1, 1)), ("tri2_Pm1", (1, 1, 1))]
+    # supercells with >= 3 lattice points along an axis (t and -t differ) under origins that put atoms within float
+    # noise of the 0.5 wrap or of a rounding half-way point of the position matcher
+    for cname, diag in ([("ortho2", (3, 1, 1)), ("mono_P", (1, 1, 4))] if ctx.quick else [("ortho2", (3, 1, 1)), ("mono_P", (1, 1, 4)), ("tri2_P1", (1, 3, 1)), ("tri1", (5, 1, 1)), ("ortho2", (4, 1, 1))]):
+        sc = make_supercell(base_cells()[cname], diag)
+        run_cell(ctx, rng, sc, [2], boundary_only=True)
     for cname, diag in cells:
         sc = make_supercell(base_cells()[cname], diag)
         N = len(sc["numbers"])
@@ -57,7 +62,7 @@ def check(ctx):
                 run_cell(ctx, rng, sc, [2, 3], cutoff={2: cut, 3: cut})
 
 
-def run_cell(ctx, rng, sc, orders, cutoff=None):
+def run_cell(ctx, rng, sc, orders, cutoff=None, boundary_only=False):
     from symfc import Symfc
     from symfc.utils.utils import SymfcAtoms
 
@@ -103,6 +108,15 @@ def run_cell(ctx, rng, sc, orders, cutoff=None):
         trs.append(("rotation-" + ("improper" if imp else "proper"), L @ Q.T, X, Z, d @ Q.T, f @ Q.T, ("rot", Q)))
     if ctx.quick:
         trs = trs[:4] + trs[5:8] + trs[-2:]
+    if boundary_only:
+        trs = []
+        for fr in (1 / 2, 1 / 3, 1 / 4, 1 / 6, 1 / 8):
+            for eps in (-1e-13, 1e-13):
+                trs.append((f"origin-shift-{fr:.4f}{eps:+.0e}", L, X + (fr + eps), Z, d, f, None))
+        for sh in (0.0005, 0.3335, 0.4995, 0.9995):
+            trs.append((f"origin-shift-{sh}", L, X + sh, Z, d, f, None))
+        if ctx.quick:
+            trs = trs[0:10:2] + trs[1:10:4] + trs[10:]
     for nm, L2, X2, Z2, d2, f2, back in trs:
         at2 = SymfcAtoms(numbers=Z2, scaled_positions=X2, cell=L2)
         ctx.case({"cell": sc["name"], "transformation": nm, "orders": orders, "cutoff": None if cutoff is None else round(list(cutoff.values())[0], 4)}, nontrivial=True)
